@@ -194,6 +194,9 @@ func checkCondProtocol(r *Reporter, p *Prog, pkg string, conds []condInfo, minWa
 		if deferredOnlyHelper(p, pkg, fd) {
 			units = nil // its signals are judged at the defer statements that run it
 		}
+		if fd.Recv != nil && splicedEverywhere(p, pkg, fd) {
+			units = nil // a signalling helper: its signals are judged inside every caller it is spliced into
+		}
 		var stack []ast.Node
 		ast.Inspect(fd.Body, func(n ast.Node) bool {
 			if n == nil {
@@ -256,6 +259,7 @@ func checkCondProtocol(r *Reporter, p *Prog, pkg string, conds []condInfo, minWa
 					return call == nil
 				})
 				m, cf, bp, _ := condCall(info, call)
+				bp = f.MapPath(bp, pt) // a signal inside a spliced helper: in the caller's frame
 				nSignals++
 				key := fmt.Sprintf("%s.%s in %s", cf, m, fkey)
 				ci := findCond(conds, recvT, cf)
@@ -277,11 +281,12 @@ func checkCondProtocol(r *Reporter, p *Prog, pkg string, conds []condInfo, minWa
 					if !ok {
 						return false
 					}
-					if op, path := lockOp(info, c); (op == "Lock" || op == "RLock") && path == lockerPath {
+					npt, _ := f.PointOf(c)
+					if op, path := lockOp(info, c); (op == "Lock" || op == "RLock") && (path == lockerPath || f.MapPath(path, npt) == lockerPath) {
 						return true
 					}
 					if se, ok := ast.Unparen(c.Fun).(*ast.SelectorExpr); ok {
-						if b2, okp := pathOf(info, se.X); okp && b2 == bp && helpers[recvT+"."+se.Sel.Name] == ci.Locker {
+						if b2, okp := pathOf(info, se.X); okp && (b2 == bp || f.MapPath(b2, npt) == bp) && helpers[recvT+"."+se.Sel.Name] == ci.Locker {
 							return true
 						}
 					}
